@@ -638,6 +638,30 @@ Definition json_filter (fx : fixes) (v : value) (args : list value) : res value 
 Definition liquid_truthy (v : value) : bool :=
   match v with VNone | VUndef | VBool false => false | _ => true end.
 
+(* map: _getitem(item, key, default=_NULL) with a text key; the way it ends for one item *)
+Definition map_item (key itm : value) : res (option value) :=    (* None: FilterItemTypeError, the filter gives nil *)
+  match itm with
+  | VNone => Ok None
+  | VBool _ | VInt _ | VFloat _ => Err ETypeError               (* no __getitem__: the TypeError is re-raised *)
+  | _ => match py_getitem itm key with
+         | Ok x => Ok (Some x)
+         | Err _ => Ok (Some VNone)                              (* missing, or a text item: the key or null *)
+         | OutOfFuel => OutOfFuel
+         end
+  end.
+
+Fixpoint map_items (key : value) (l : list value) : res (option (list value)) :=
+  match l with
+  | [] => Ok (Some [])
+  | x :: r =>
+      do y <- map_item key x;
+      match y with
+      | None => Ok None
+      | Some y' => do rest <- map_items key r;
+                   Ok (match rest with Some l' => Some (y' :: l') | None => None end)
+      end
+  end.
+
 (* ------------------------------------------------------------------ sites *)
 Inductive site :=
 (* math filters *)
@@ -655,6 +679,10 @@ Inductive site :=
 | SJoin | SFirst | SLast | SSize | SSum | SCompact | SUniq | SIndex | SConcat
 (* misc *)
 | SDefault | SJson | SNgettext
+| SReverse           (* reverse: a total sequence filter *)
+| SSortNatural       (* sort_natural without a property: the key is str(item).lower() *)
+| SMap               (* map: item[str(key)] for every item *)
+| SGettext (lo hi : nat)   (* gettext (0 0), t (0 1), pgettext (1 1): the message and the context go through to_liquid_string *)
 (* expressions and tags *)
 | SOutput            (* output statement, echo, assign-then-output, capture *)
 | SRangeLit          (* (v..a) *)
@@ -662,7 +690,10 @@ Inductive site :=
 | STablerow          (* tablerow x in v cols: a limit: b *)
 | SContains          (* if v contains a *)
 | SRootBracket       (* a path whose root segment is the value of v in brackets *)
-| STranslateCount.   (* translate count: v *)
+| STranslateCount    (* translate count: v *)
+| SOutAll            (* the value and every argument reach the output in turn: ifchanged, with, cycle, include / render
+                        with keyword arguments or with-binding *)
+| STernary.          (* {{ v if a else b }} *)
 
 Definition nth_len_ok (lo hi : nat) (args : list value) : bool :=
   (Nat.leb lo (length args)) && (Nat.leb (length args) hi).
@@ -760,6 +791,42 @@ Definition eval_filter (fx : fixes) (p : prims) (s : site) (v : value) (args : l
           Ok some_str
       | _ => arity_error
       end
+  | SReverse => liquid_filter (match args with [] => Ok (VList (rev (coerce_seq v))) | _ => arity_error end)
+  | SSortNatural =>
+      liquid_filter (match args with
+                     | [] => do _ <- all_str (coerce_seq v); Ok (VList (coerce_seq v))
+                     | [key] =>
+                         if py_truthy key then
+                           (* the sort key is str(_getitem(item, str(key), MAX_CH)).lower() *)
+                           do _ <- py_str key;
+                           match map_items (match key with VStr _ _ => key | _ => some_str end) (coerce_seq v) with
+                           | Err e => Err e                                   (* TypeError: converted by the decorator *)
+                           | OutOfFuel => OutOfFuel
+                           | Ok None => Ok VNone
+                           | Ok (Some keys) => do _ <- all_str keys; Ok (VList (coerce_seq v))
+                           end
+                         else do _ <- all_str (coerce_seq v); Ok (VList (coerce_seq v))
+                     | _ => arity_error end)
+  | SMap =>
+      liquid_filter (match args with
+                     | [key] =>
+                         (* str(key) is evaluated for each item: never for an empty sequence *)
+                         do _ <- (match coerce_seq v with [] => Ok tt | _ => py_str key end);
+                         match map_items (match key with VStr _ _ => key | _ => some_str end) (coerce_seq v) with
+                         | Err ETypeError => Err ELiquid                       (* FilterError *)
+                         | Err e => Err e
+                         | OutOfFuel => OutOfFuel
+                         | Ok (Some l) => Ok (VList l)
+                         | Ok None => Ok VNone
+                         end
+                     | _ => arity_error end)
+  | SGettext lo hi =>
+      if nth_len_ok lo hi args then
+        match args with
+        | [c] => do _ <- py_str v; do _ <- (match c with VNone => Ok tt | _ => py_str c end); Ok some_str
+        | _ => do _ <- py_str v; Ok some_str
+        end
+      else arity_error
   | _ => Ok VNone
   end.
 
@@ -779,6 +846,16 @@ Definition loop_int (fx : fixes) (v : value) : res Z :=
 
 Definition opt_loop_int (fx : fixes) (o : option value) : res unit :=
   match o with None => Ok tt | Some x => do _ <- loop_int fx x; Ok tt end.
+
+(* to_liquid_string: str() of the value; a range prints its start and stop-1 *)
+Definition to_liquid_string (v : value) : res unit :=
+  match v with
+  | VRange lo n => if huge lo || huge (lo + Z.of_nat n - 1) then Err EValueError else Ok tt
+  | _ => py_str v
+  end.
+
+Fixpoint all_out (l : list value) : res unit :=
+  match l with [] => Ok tt | x :: r => do _ <- to_liquid_string x; all_out r end.
 
 (* async_ only matters for SRootBracket *)
 Definition eval_site (fx : fixes) (p : prims) (async_ : bool) (s : site) (v : value) (args : list value) : res value :=
@@ -821,18 +898,17 @@ Definition eval_site (fx : fixes) (p : prims) (async_ : bool) (s : site) (v : va
              else do _ <- py_str v; Ok VUndef      (* the hint text is an f-string of the root *)
       end
   | STranslateCount => do _ <- to_int_or fx (fx_count fx) v 1; Ok some_str
+  | SOutAll => do _ <- to_liquid_string v; do _ <- all_out args; Ok some_str
+  | STernary =>
+      match args with
+      | [a; b] => Ok (if liquid_truthy a then v else b)
+      | _ => Ok VNone
+      end
   | _ => filter_evaluate (eval_filter fx p s v args)
   end.
 
 (* ------------------------------------------------------------------ output statement and the per-node handler *)
 Inductive tol := Strict | Warn | Lax.
-
-(* to_liquid_string: str() of the value; a range prints its start and stop-1 *)
-Definition to_liquid_string (v : value) : res unit :=
-  match v with
-  | VRange lo n => if huge lo || huge (lo + Z.of_nat n - 1) then Err EValueError else Ok tt
-  | _ => py_str v
-  end.
 
 (* render_with_context: except LiquidError -> env.error (raise in STRICT, warn or ignore otherwise); anything else propagates *)
 Definition node_handler {A} (t : tol) (r : res A) : res unit :=
